@@ -410,15 +410,29 @@ theorem Grows_applyIndexed (s : Sess) (clean : Bool) (start len : Nat) (newText 
       · exact Grows_applyInsertion _ _ _ _ _
       · exact Grows_applyReplace _ _ _ _ _ _ _
 
+theorem Grows_nestedProxyWith (s : Sess) (clean : Bool) (start len : Nat) (new : Str) (comment : Option Str) (id : Str)
+    (r : Sess × Bool) (hr : nestedProxyWith s clean start len new comment id = some r) : Grows s r.1 := by
+  unfold nestedProxyWith at hr
+  simp only at hr
+  split at hr
+  · injection hr with hr; subst hr; exact Grows_applyIndexed _ _ _ _ _ _ _
+  · cases hr
+
 theorem Grows_nestedProxyAt (s : Sess) (clean : Bool) (start len : Nat) (new : Str) (comment : Option Str)
     (r : Sess × Bool) (hr : nestedProxyAt s clean start len new comment = some r) : Grows s r.1 := by
   unfold nestedProxyAt at hr
-  simp only at hr
   split at hr
-  · split at hr
-    · injection hr with hr; subst hr; exact Grows_applyIndexed _ _ _ _ _ _ _
-    · cases hr
+  · exact Grows_nestedProxyWith _ _ _ _ _ _ _ r hr
   · cases hr
+
+theorem Grows_nestedInsertAt (s : Sess) (clean : Bool) (start : Nat) (new : Str) (comment : Option Str)
+    (r : Sess × Bool) (hr : nestedInsertAt s clean start new comment = some r) : Grows s r.1 := by
+  unfold nestedInsertAt at hr
+  split at hr
+  · cases hr
+  · split at hr
+    · exact Grows_nestedProxyWith _ _ _ _ _ _ _ r hr
+    · cases hr
 
 theorem Grows_heuristicDirect (s : Sess) (m : HMatch) (e : HEdit) : Grows s (heuristicDirect s m e).1 := by
   unfold heuristicDirect
@@ -426,13 +440,15 @@ theorem Grows_heuristicDirect (s : Sess) (m : HMatch) (e : HEdit) : Grows s (heu
   split
   · exact Grows.refl s
   · split
-    · exact Grows_applyIndexed _ _ _ _ _ _ _
+    · split
+      · rename_i r hr; exact Grows_nestedInsertAt _ _ _ _ _ r hr
+      · exact Grows_applyIndexed _ _ _ _ _ _ _
     · split
       · exact Grows.refl s
       · split
         · rename_i r hr
           split at hr
-          · cases hr
+          · exact Grows_nestedInsertAt _ _ _ _ _ r hr
           · exact Grows_nestedProxyAt _ _ _ _ _ _ r hr
         · exact Grows_applyIndexed _ _ _ _ _ _ _
 
